@@ -269,6 +269,44 @@ pub fn inspect_ref<I>(f: impl FnOnce(&I), v: I) -> I {
     f(&v);
     v
 }
+// ---- callbacks and sources for chains over real futures and streams
+pub use futures::future::Ready;
+/// `A -> ready(B)`
+pub fn acb<A: Val, B: Val>(id: u32) -> impl Fn(A) -> Ready<B> + Copy + Send + Sync + 'static {
+    move |a: A| futures::future::ready(xcbf::<A, B>(id, a))
+}
+/// `&A -> ready(bool)` (StreamExt::filter)
+pub fn apred<A: Val>(id: u32) -> impl Fn(&A) -> Ready<bool> + Copy + Send + Sync + 'static {
+    move |a: &A| futures::future::ready(xpred::<A>(id, a))
+}
+/// `(A, B) -> ready(C)` (StreamExt::fold / TryStreamExt::try_fold)
+pub fn acb2<A: Val, B: Val, C: Val>(id: u32) -> impl Fn(A, B) -> Ready<C> + Copy + Send + Sync + 'static {
+    let f = cb2::<A, B, C>(id);
+    move |a: A, b: B| futures::future::ready(f(a, b))
+}
+/// `->` on a future: receives the future itself
+pub fn fthen<T: Val + Send, U: Val + Send, F: std::future::Future<Output = T> + Send + 'static>(id: u32) -> impl Fn(F) -> futures::future::BoxFuture<'static, U> + Copy + Send + Sync + 'static {
+    move |f: F| {
+        use futures::FutureExt;
+        f.map(move |t| xcbf::<T, U>(id, t)).boxed()
+    }
+}
+/// maps an item to a stream (for `|> .. ^^>` on streams)
+pub fn to_stream<T: Val, U: Val>(id: u32) -> impl Fn(T) -> futures::stream::Iter<std::vec::IntoIter<U>> + Copy + Send + Sync + 'static {
+    move |t: T| futures::stream::iter(xcbf::<T, Vec<U>>(id, t))
+}
+/// a stream operand value (`>@>`, `>^>`)
+pub fn sval<T: Val>(id: u32) -> futures::stream::Iter<std::vec::IntoIter<T>> {
+    futures::stream::iter(altv::<Vec<T>>(id))
+}
+/// initial stream / future of the current input
+pub fn sinp<T: Val>(k: u32) -> futures::stream::Iter<std::vec::IntoIter<T>> {
+    futures::stream::iter(inp::<Vec<T>>(k))
+}
+pub fn finp<T: Val>(k: u32) -> Ready<T> {
+    futures::future::ready(inp::<T>(k))
+}
+
 /// block-capture marker
 pub fn cap(id: u32) {
     log::ev(id, K::Cap, tag::NONE, 0);
@@ -324,6 +362,9 @@ pub struct ChainCase {
     pub n_ops: usize,
     /// callbacks of different branches may interleave (thread / task spawning with >= 2 branches)
     pub concurrent: bool,
+    /// a try-async macro with several branches: when a branch fails its siblings may never be polled,
+    /// so only the result is compared for failing inputs
+    pub short_circuit: bool,
 }
 
 struct Side {
@@ -388,6 +429,7 @@ pub fn main(cases: &[ChainCase]) {
             let mut detail: Option<String> = None;
             match mode.as_str() {
                 // C10: every expression evaluated exactly as often as in the documented chain; values moved, never cloned
+                "C10" | "C11" if c.short_circuit && rr.as_ref().map(|s| s.starts_with("Err(")).unwrap_or(false) => {}
                 "C10" => {
                     if multiset_differs() {
                         detail = Some(format!("event multiset differs: macro {:?}, documented chain {:?}", me, re));
@@ -404,8 +446,11 @@ pub fn main(cases: &[ChainCase]) {
                     }
                 }
                 _ => {
+                    let failed = rr.as_ref().map(|s| s.starts_with("Err(")).unwrap_or(false);
                     if rr != mr {
                         detail = Some(format!("result: macro {:?}, documented chain {:?}", mr, rr));
+                    } else if c.short_circuit && failed {
+                        // nothing more is promised
                     } else if c.concurrent {
                         if per_branch(&calls(&re)) != per_branch(&calls(&me)) {
                             detail = Some(format!("per-branch callback trace differs: macro {:?}, documented chain {:?}", calls(&me), calls(&re)));
@@ -413,7 +458,7 @@ pub fn main(cases: &[ChainCase]) {
                     } else if calls(&re) != calls(&me) {
                         detail = Some(format!("callback trace differs: macro {:?}, documented chain {:?}", calls(&me), calls(&re)));
                     }
-                    if detail.is_none() && multiset_differs() {
+                    if detail.is_none() && !(c.short_circuit && failed) && multiset_differs() {
                         detail = Some(format!("event multiset differs: macro {:?}, documented chain {:?}", me, re));
                     }
                 }
